@@ -10,7 +10,11 @@ Record obs := {
   o_hdr : hmap;             (* header fields read by the client *)
   o_dials : list str;       (* addresses handed to the dial function while the request was in flight *)
   o_reached : N;            (* messages that reached any scripted origin / upstream proxy *)
-  o_from_peer : bool        (* the client got a scripted peer's answer (marker header) *)
+  o_from_peer : bool;       (* the client got a scripted peer's answer (marker header) *)
+  o_targets : list str;     (* host names the exchange was really sent towards: hosts of the dialled addresses
+                               (other than the upstream proxy's) and of the targets the upstream proxy was asked for *)
+  o_target_is_local : bool  (* ground truth from the harness: the same URL, requested WITHOUT the proxy by a plain
+                               http.Transport, was answered by the origin that listens on the loopback interface only *)
 }.
 Record xcase := { x_cfg : config; x_env : env; x_req : req; x_obs : obs }.
 
@@ -41,9 +45,22 @@ Definition challenge_ok (o : obs) : bool :=
   negb (o_status o =? 407) ||
   existsb (fun v => has_prefix v (b "Basic")) (h_values (b "Proxy-Authenticate") (o_hdr o)).
 
+(* "fails a check", judged also on where the exchange really went: a target the transport
+   normalised (IDNA mapping, zone) is still the target *)
+Definition fails_certainly (cfg : config) (e : env) (q : req) (o : obs) (k : control) : bool :=
+  must_fail cfg e q k ||
+  (enabled cfg k &&
+   match k with
+   | CLocal => o_target_is_local o || existsb (target_is_local (c_idna cfg) (c_aliases cfg)) (o_targets o)
+   | CDeny => match c_deny cfg with Some m => existsb m (o_targets o) | None => false end
+   | _ => false
+   end).
+Definition passes_certainly (cfg : config) (e : env) (q : req) (o : obs) (k : control) : bool :=
+  must_pass cfg e q k && negb (fails_certainly cfg e q o k).
+
 (* refused as the statement prescribes, by a control the request does not certainly pass *)
 Definition refusal_ok (cfg : config) (e : env) (q : req) (o : obs) : bool :=
-  existsb (fun k => enabled cfg k && negb (must_pass cfg e q k) && (o_status o =? spec_status k))
+  existsb (fun k => enabled cfg k && negb (passes_certainly cfg e q o k) && (o_status o =? spec_status k))
           security_controls
   && challenge_ok o && no_upstream o.
 
@@ -53,8 +70,8 @@ Definition forwarded_ok (cfg : config) (q : req) (o : obs) : bool :=
 
 Definition xcase_prop_ok (c : xcase) : bool :=
   let cfg := x_cfg c in let e := x_env c in let q := x_req c in let o := x_obs c in
-  if existsb (must_fail cfg e q) security_controls then refusal_ok cfg e q o
-  else if forallb (must_pass cfg e q) security_controls then forwarded_ok cfg q o
+  if existsb (fails_certainly cfg e q o) security_controls then refusal_ok cfg e q o
+  else if forallb (passes_certainly cfg e q o) security_controls then forwarded_ok cfg q o
   else refusal_ok cfg e q o || forwarded_ok cfg q o.
 
 (* indices (from 0) of the cases on which f fails *)
